@@ -112,7 +112,10 @@ impl Property for C18 {
     /// another queue; "b" is truncated, the first file garbage-collected, the log restarted: the other queue must not
     /// change.
     fn fixed_work(&self, env: &mut Env, shard: u32, shards: u32) -> Result<(), CaseError> {
-        super::c08::C08.orphan_tail_campaign(env, shard, shards)
+        super::c08::C08.orphan_tail_campaign(env, shard, shards)?;
+        // content-dependent isolation: a record of queue a whose frame header carries a chosen checksum value (0, ...)
+        // must not make the records queue b appends afterwards disappear at the next restart
+        super::c01::crafted_checksum_campaign(env, shard, shards)
     }
 
     fn strategy(&self, tier: Tier) -> BoxedStrategy<Case> {
@@ -124,6 +127,9 @@ impl Property for C18 {
     }
 
     fn run(&self, case: &Case, env: &mut Env) -> Result<(), CaseError> {
+        if let Some(cell) = case.extra.as_ref().and_then(|extra| extra.get("crafted_crc")).and_then(|value| value.as_u64()) {
+            return super::c01::crafted_checksum_campaign(env, cell as u32, 16);
+        }
         if let Some(variant) = case.extra.as_ref().and_then(|extra| extra.get("orphan_variant")).and_then(|value| value.as_u64()) {
             return super::c08::C08.orphan_tail_campaign(env, variant as u32 % 256, 256);
         }
